@@ -86,7 +86,7 @@ mut('c08-req-recv-keeps-marker', 'C08', 'src/req.rs', "                    let r
 # ---------------------------------------------------------------- C09 router
 mut('c09-router-label-back', 'C09', 'src/router.rs', "                    message.push_front(peer_id.into());", "                    message.push_back(peer_id.into());", note='identity appended instead of prepended')
 mut('c09-router-send-keeps-id', 'C09', 'src/router.rs', "        let peer_id: PeerIdentity = message.pop_front().unwrap().try_into()?;", "        let peer_id: PeerIdentity = message.get(0).unwrap().clone().try_into()?;", note='identity frame forwarded to the peer')
-mut('c09-register-wrong-id', 'C09', 'src/backend.rs', "        self.round_robin.push(peer_id.clone());\n        match &self.fair_queue_inner {", "        self.round_robin.push(peer_id.clone());\n        let peer_id = &PeerIdentity::new();\n        match &self.fair_queue_inner {", expect='any-nonzero', note='read half queued under a different identity (inside assumed region A-REGION-3: may be missed -> documents the gap)')
+mut('c09-register-wrong-id', 'C09', 'src/backend.rs', "        self.round_robin.push(peer_id.clone());\n        match &self.fair_queue_inner {", "        self.round_robin.push(peer_id.clone());\n        let peer_id = &PeerIdentity::new();\n        match &self.fair_queue_inner {", note='read half queued under a different identity (former assumed region A-REGION-3, now verified)')
 mut('c09-register-peers-wrong-id', 'C09', 'src/backend.rs', "            .upsert_async(peer_id.clone(), Peer { send_queue })", "            .upsert_async(PeerIdentity::new(), Peer { send_queue })", note='write half stored under a generated identity')
 mut('c09-router-error-not-forgotten', 'C09', 'src/router.rs', "                    self.backend.peer_disconnected(&peer_id);\n                    // We could", "                    // We could", note='failed peer stays routable')
 # ---------------------------------------------------------------- C10 round robin
